@@ -383,15 +383,15 @@ func runC05(c *fw.Ctx) {
 	if msg := mrzref.SelfTest(); msg != "" {
 		fw.Bug("mrzref self-test: %s", msg)
 	}
-	npos := c.Pick(1800, 360000)
+	npos := c.Pick(1800, 1800000)
 	c.Cases(npos, func(i int) string { return fmt.Sprintf("positive|%s i=%d", c05Layouts[i%3], i) }, func(i int, k *fw.K) { c05Positive(k, i) })
 	// hostile: sessions x all 320 bit flips + kinds
-	nh := c.Pick(8, 600)
+	nh := c.Pick(8, 3000)
 	for s := 0; s < nh; s++ {
 		s := s
 		c.Cases(320, func(b int) string { return fmt.Sprintf("hostile-bitflip|session=%d bit=%d", s, b) }, func(b int, k *fw.K) { c05Hostile(k, s, "bitflip", b) })
 	}
-	nk := c.Pick(20, 4000)
+	nk := c.Pick(20, 20000)
 	c.Cases(nk*len(c05HostileKinds), func(i int) string {
 		return fmt.Sprintf("hostile|%s session=%d", c05HostileKinds[i%len(c05HostileKinds)], i/len(c05HostileKinds))
 	}, func(i int, k *fw.K) {
